@@ -149,6 +149,25 @@ def doErrorDone (done : Option CtxKind) (e : GoError) : GoError :=
   | some _ => e1
   | none => .coded 14 e1
 
+/-- `duplexHTTPCall.CloseRead` after fixes F26 / F27: the context is watched until the drain is
+    over (so its error may have been stored), and otherwise the state of the context classifies
+    what the failing drain reports -/
+def duplexCloseReadErrorDone (stored : Option GoError) (done : Option CtxKind) (bodyErr : GoError) : GoError :=
+  match stored with
+  | some s => s
+  | none => wrapIfRSTError (wrapIfContextDone done (wrapIfContextError bodyErr))
+
+def clientCloseResponseErrorDone (stored : Option GoError) (done : Option CtxKind) (bodyErr : GoError) : GoError :=
+  wrapIfUncoded (duplexCloseReadErrorDone stored done bodyErr)
+
+/-- the call's error when response validation fails (`makeRequest`, fix F25): validation may read
+    the response body (unary Connect errors); if the context has ended by then, its error is the
+    call's error, not whatever validation made of a body it could not finish reading -/
+def validationError (done : Option CtxKind) (validation : GoError) : GoError :=
+  match done with
+  | some k => wrapIfContextError (.ctx k)
+  | none => validation
+
 /-- `SetError`: the first error is stored, context errors coded -/
 def setError (stored : Option GoError) (e : GoError) : Option GoError :=
   match stored with
